@@ -249,9 +249,12 @@ Token& Lexer::lex(Token& result) {
     // Check for escape sequences.
     if (c == '$' && columnNumber != 0) {
       // If this is a newline escape, consume it.
-      if ((bufferPos + 1 != buffer.end() && bufferPos[1] == '\n') ||
-          (bufferPos + 2 != buffer.end() && bufferPos[1] == '\r' &&
-           bufferPos[2] == '\n')) {
+      //
+      // Check the number of bytes which remain: when '$' is the last byte
+      // there is nothing following it to look at.
+      size_t remaining = buffer.end() - bufferPos;
+      if ((remaining > 1 && bufferPos[1] == '\n') ||
+          (remaining > 2 && bufferPos[1] == '\r' && bufferPos[2] == '\n')) {
         getNextChar();
         getNextChar();
       } else {
